@@ -191,6 +191,12 @@ CATALOG = [
     ("benign-L_r4", "benign", "L_r4.diff", [("R-BACKPTR", None)]),
     ("benign-L_r9", "benign", "L_r9.diff", [("R-RPWIDTH", None)]),
     ("benign-L_r10", "benign", "L_r10.diff", [("R-TAGS", None), ("R-RPWIDTH", None)]),
+    ("benign-M_r5", "benign", "M_r5.diff", [("R-ACCEPT", None), ("R-SENTINEL", None)]),
+    ("benign-M_r7", "benign", "M_r7.diff", [("R-ACCEPT", None), ("R-SENTINEL", None)]),
+    ("benign-M_r8", "benign", "M_r8.diff", [("R-TAGS", None), ("R-MIRROR", None)]),
+    ("benign-M_r3", "benign", "M_r3.diff", [("R-STATE", None)]),
+    ("benign-N_r3", "benign", "N_r3.diff", [("R-SCANLEN", None)]),
+    ("benign-O_r12", "benign", "O_r12.diff", [("R-COUNTERWIDTH", None)]),
     # one-place substitutions for rules nothing above exercises: (file, old, new)
     ("sub-mirror-width", "subst", ("StringDictionaryPFC.cpp", "dict->buckets = loadValue<uint32_t>(in);", "dict->buckets = loadValue<uint64_t>(in);"),
      [("R-MIRROR", "StringDictionaryPFC::save")]),
